@@ -9,7 +9,9 @@ from props import C19
 
 LEAN_MODULES = ["FeedVerif.Props.C11", "FeedVerif.Model.MixinDriver"]
 CORR_OBLIGATIONS = ["M-mixin (stage 1) ~ the real handler machine for BOTH back ends (same model, Ops.loose switches the attribute hook)",
-                    "expat and sgmllib deliver the same event stream on reference-free well-formed documents modulo the documented normalisation (validated on recorded streams)"]
+                    "expat and sgmllib deliver the same event stream on reference-free well-formed documents modulo the documented normalisation (validated on recorded streams)",
+                    "looseDecode ~ LooseFeedParser.decode_entities on generated strings over the reference alphabet x content types",
+                    "M-mixin (stage 6: handle_charref / handle_entityref) ~ the real loose handler machine on documents WITH predefined, numeric and unknown references"]
 TRUSTED = C19.TRUSTED
 ASSUMPTIONS = ["tokenizer agreement (expat vs sgmllib) is a library-vs-library fact: validated by recorded event streams, not proved"]
 
@@ -216,6 +218,37 @@ def correspondence(ctx):
             bad += 1
             if len(res["disagreements"]) < 20:
                 res["disagreements"].append({"doc": d, "what": "expat and sgmllib event streams differ after normalisation", "strict": str(strip(a))[:300], "loose": str(strip(b))[:300]})
+    # the loose back end's decode_entities as a function of its own (Model: looseDecode) and its reference callbacks on documents WITH references (stage 6)
+    import feedparser.api as api
+    from vlib import enc
+    p = api.LooseFeedParser("", None, "utf-8", {})
+    alphabet = ["&#60;", "&#x3c;", "&#x3C;", "&#62;", "&#x3e;", "&#x3E;", "&#38;", "&#x26;", "&#34;", "&#x22;", "&#39;", "&#x27;", "&lt;", "&gt;", "&amp;", "&quot;", "&apos;", "&#x2f;", "&#x2F;",
+                "&", "#", "x", ";", "amp;", "l", "t", " ", "a&b", "&amp;amp;", "&amp;#38;", "&#38;lt;", "&#x26;#60;", "text"]
+    dlines, dexp = [], []
+    for _ in range(ctx.n(400, 6000)):
+        ty = rng.choice(["text/plain", "text/html", "application/xhtml+xml", "xml", "application/xml", "image/svg+xml", "TEXT/XML", "x"])
+        t = "".join(rng.choice(alphabet) for _i in range(rng.randint(0, 6)))
+        p.contentparams = {} if ty == "xml" and rng.random() < 0.5 else {"type": ty}
+        dlines.append("mix decode %s %s" % (enc(ty), enc(t)))
+        dexp.append("s:" + enc(p.decode_entities("el", t)))
+    for l, g, e in zip(dlines, vlib.run_driver(dlines), dexp):
+        if g != e and len(res["disagreements"]) < 20:
+            res["disagreements"].append({"line": l, "model": g, "impl": e, "which": "looseDecode ~ LooseFeedParser.decode_entities"})
+    res["cases"] += len(dlines)
+    res["distribution"]["decode_entities_cases"] = len(dlines)
+    rdocs = []
+    for _ in range(ctx.n(120, 2000)):
+        refs = ["&amp;", "&lt;", "&gt;", "&quot;", "&apos;", "&#38;", "&#60;", "&#x3C;", "&#65;", "&#x41;", "&#34;", "&#39;", "&nosuch;", "&#62;"]
+        txt = lambda: " ".join(rng.choice(["word", "t", rng.choice(refs), rng.choice(refs)]) for _i in range(rng.randint(1, 5)))
+        body = "".join("<%s>%s</%s>" % (el, txt(), el) for el in rng.sample(["title", "description", "guid", "category", "comments", "x:other", "copyright", "link", "pubDate", "dc:rights"], rng.randint(1, 5)))
+        rdocs.append(('<rss version="2.0" xmlns:x="http://unknown.example/" xmlns:dc="http://purl.org/dc/elements/1.1/"><channel><title>%s</title><item>%s</item></channel></rss>' % (txt(), body)).encode("utf-8"))
+    r3 = mixlib.corr(ctx, rdocs, {"content-type": "application/xml; charset=utf-8"}, loose_p=1.0)
+    res["cases"] += r3["cases"]
+    res["unmodelled"] = res.get("unmodelled", 0) + r3["unmodelled"]
+    for d_ in r3["disagreements"]:
+        if len(res["disagreements"]) < 20:
+            res["disagreements"].append(dict(d_, which="M-mixin stage 6 (references on the loose back end)"))
+    res["distribution"]["mixin_stage6"] = r3["distribution"]
     res["distribution"]["tokenizer_agreement_checked"] = checked
     res["distribution"]["tokenizer_agreement_failed"] = bad
     res["cases"] += checked
@@ -247,7 +280,9 @@ def replay(w):
 TECHNIQUE = "Lean 4 proof: the handler-machine model is back-end agnostic on reference-free event streams (the loose attribute hook is the identity there) + both back ends tied to the one model by event-level correspondence + strict-vs-loose differential search"
 LEVEL_TEXT = ("Kernel-checked on M-mixin (stage 1): normAttr_loose_eq_strict (no '&' in the value => the loose attribute hook equals the strict one), backend_agnostic "
               "(for every event stream whose attribute values contain no '&' the loose and the strict machine produce the same outcome, by induction over the stream), "
-              "replaceAll_id. Tie: ONE model follows BOTH real back ends event by event; expat-vs-sgmllib event-stream agreement on reference-free documents is "
+              "replaceAll_id; on the references themselves (stage 6: the loose back end's handle_entityref / handle_charref / decode_entities modelled executably and guarded by source "
+              "fingerprints): predefined_refs_decode_like_expat (inside a text construct of a non-XML type the five predefined entities and their numeric spellings end up as the "
+              "character expat delivers), predefined_refs_stay_encoded_outside_text_constructs (the difference the property allows, stated exactly), other_charrefs_are_characters. Tie: ONE model follows BOTH real back ends event by event; expat-vs-sgmllib event-stream agreement on reference-free documents is "
               "validated on recorded streams (it is a statement about two third-party tokenizers).")
 LEVEL_NOTE = ("Trusted: Lean kernel + standard axioms; tokenizer agreement validated, not proved; the dedicated handlers beyond stage 1 are covered by the differential "
               "search only. Open finding: the loose back end delivers xmlns* declarations as attributes, so handler-less elements that carry a declaration "
